@@ -17,8 +17,12 @@
 //                   BADLEN <n>                InvalidBodyLength
 //                   OTHER <hex of what()>     anything else the reader logged as an error
 //         The kind of exception is taken from what FIXReader::execute itself reports
-//         (scout_error << e.what()) through a recording Logger attached to the session.
+//         (scout_error << e.what()) through a recording Logger attached to the session; what() is
+//         a C string, so the texts end at their first NUL byte.
 //         A memory error kills the process (ASan); the framework records CRASH for that case.
+// One FIXReader + socket per case; the recording session, its logger and the thread that runs the
+// reader's thread function (FIXReader::operator()()) live for the whole run (see ReaderThread).
+// No fix8 logger is given a device or shared path (global logger: verif_logfile()).
 #include "hcommon.hpp"
 #include "vclock.hpp"
 #include "vsock.hpp"
